@@ -60,6 +60,9 @@ pub struct RuleRegistration<L: Language> {
   global: Registration<RuleCore<L>>,
   /// Every RuleConfig has its own rewriters. But sub-rules share parent's rewriters.
   rewriters: Registration<RuleCore<L>>,
+  /// ids of the local utility rules under registration: such an id shadows a global rule
+  /// of the same name even before the local rule itself has been inserted
+  declared: Registration<()>,
 }
 
 // these are shit code
@@ -73,13 +76,24 @@ impl<L: Language> RuleRegistration<L> {
       local: Default::default(),
       global: global.clone(),
       rewriters: Default::default(),
+      declared: Default::default(),
     }
   }
 
   fn get_ref(&self) -> RegistrationRef<L> {
     let local = Arc::downgrade(&self.local.0);
     let global = Arc::downgrade(&self.global.0);
-    RegistrationRef { local, global }
+    let declared = Arc::downgrade(&self.declared.0);
+    RegistrationRef {
+      local,
+      global,
+      declared,
+    }
+  }
+
+  /// announce the id of a local utility rule before it is deserialized and inserted
+  pub(crate) fn declare_local(&self, id: &str) {
+    self.declared.write().insert(id.to_string(), ());
   }
 
   pub(crate) fn insert_local(&self, id: &str, rule: Rule<L>) -> Result<(), ReferentRuleError> {
@@ -133,6 +147,7 @@ impl<L: Language> Default for RuleRegistration<L> {
       local: Default::default(),
       global: Default::default(),
       rewriters: Default::default(),
+      declared: Default::default(),
     }
   }
 }
@@ -142,8 +157,16 @@ impl<L: Language> Default for RuleRegistration<L> {
 struct RegistrationRef<L: Language> {
   local: Weak<HashMap<String, Rule<L>>>,
   global: Weak<HashMap<String, RuleCore<L>>>,
+  declared: Weak<HashMap<String, ()>>,
 }
 impl<L: Language> RegistrationRef<L> {
+  fn is_declared_local(&self, id: &str) -> bool {
+    self
+      .declared
+      .upgrade()
+      .map(|ids| ids.contains_key(id))
+      .unwrap_or(false)
+  }
   fn get_local(&self) -> Arc<HashMap<String, Rule<L>>> {
     self
       .local
@@ -197,6 +220,12 @@ impl<L: Language> ReferentRule<L> {
   where
     F: FnOnce(&RuleCore<L>) -> T,
   {
+    // a local rule of this name exists but is not inserted yet (rules referring to each other
+    // through relational rules are registered in no particular order): do not answer for it
+    // with the global rule it shadows
+    if self.reg_ref.is_declared_local(&self.rule_id) {
+      return None;
+    }
     let rules = self.reg_ref.get_global();
     let rule = rules.get(&self.rule_id)?;
     Some(func(rule))
